@@ -1,23 +1,42 @@
 (* C03 -- REQ returns only the reply to its current request.  Statements only.
    The model (Model/Req.v) is a deterministic machine over histories of stimuli; `model_trace true init h`
    is the trace of the repaired implementation on the history h. *)
-From MV Require Import Lib.Proto Model.Req Model.ReqOracle Proofs.ReqProofs.
+From MV Require Import Lib.Proto Model.Req Model.ReqOracle Proofs.ReqProofs Proofs.ReqInv.
 Open Scope N_scope.
+
+(* THE PROPERTY, for every history of stimuli (any number of contexts, pipes and calls; replies with arbitrary
+   bytes on arbitrary pipes in arbitrary order, duplicated, stale, foreign; pipe losses; timers; closes), at the
+   granularity of one stimulus per step: every reply the repaired REQ ever handed out to a Recv call had been
+   matched under exactly the id that call was waiting for, which was the id of the context's most recent accepted
+   Send at that moment (and not "no request"), and its payload is that of a delivery matched under that id.
+   (glog / dlog are ghost logs of the model: hand-outs and matched deliveries.) *)
+Theorem C03_reply_current_all_histories : forall h,
+  let s := fst (run_model (req_model true) init h) in
+  Forall (fun e => let '(t, c, i, id, lst, b) := e in i = id /\ id = lst /\ id <> 0 /\ In (i, b) (dlog s)) (glog s).
+Proof. exact req_reply_current_all_histories. Qed.
+Print Assumptions C03_reply_current_all_histories.
+
+(* a Recv call returns a message exactly when the hand-out is logged *)
+Theorem C03_handout_logged : forall s t c id e b,
+  In (ORet t (RMsg [] b)) (out (recv_finish true s t c id e)) -> ~ In (ORet t (RMsg [] b)) (out s) ->
+  exists i lst, glog (recv_finish true s t c id e) = (t, c, i, id, lst, b) :: glog s.
+Proof. exact recv_finish_logs. Qed.
+Print Assumptions C03_handout_logged.
 
 (* replies whose id is not registered -- stale, foreign, duplicate, without the request bit, too short --
    are dropped without any effect on any context, in every state *)
-Theorem C03_unmatched_reply_dropped : forall s p body,
-  wire_id body = None \/ (exists id, wire_id body = Some id /\ aget id (ctxByID s) = None) ->
-  ctxs (pipe_recv s p body) = ctxs s /\ out (pipe_recv s p body) = out s /\
-  woken (pipe_recv s p body) = woken s /\ threads (pipe_recv s p body) = threads s /\
-  ctxByID (pipe_recv s p body) = ctxByID s.
+Theorem C03_unmatched_reply_dropped : forall fixed s p body,
+  wire_id fixed body = None \/ (exists id, wire_id fixed body = Some id /\ aget id (ctxByID s) = None) ->
+  ctxs (pipe_recv fixed s p body) = ctxs s /\ out (pipe_recv fixed s p body) = out s /\
+  woken (pipe_recv fixed s p body) = woken s /\ threads (pipe_recv fixed s p body) = threads s /\
+  ctxByID (pipe_recv fixed s p body) = ctxByID s.
 Proof. exact pipe_recv_unmatched. Qed.
 Print Assumptions C03_unmatched_reply_dropped.
 
 (* at most one delivered reply per request: matching consumes the registration *)
-Theorem C03_reply_consumes_id : forall s p body id c y,
-  keys_nodup (ctxByID s) -> wire_id body = Some id -> aget id (ctxByID s) = Some c -> aget c (ctxs s) = Some y ->
-  aget id (ctxByID (pipe_recv s p body)) = None.
+Theorem C03_reply_consumes_id : forall fixed s p body id c y,
+  keys_nodup (ctxByID s) -> wire_id fixed body = Some id -> aget id (ctxByID s) = Some c -> aget c (ctxs s) = Some y ->
+  aget id (ctxByID (pipe_recv fixed s p body)) = None.
 Proof. exact pipe_recv_consumes. Qed.
 Print Assumptions C03_reply_consumes_id.
 
